@@ -21,10 +21,12 @@ import copy
 import io
 import itertools
 import os
+import shutil
+import tempfile
 from typing import Any, Callable, Dict, List, Optional, Tuple
 
 from mcx.core import Ctx, Part, digest, pmap
-from odxmodel import emit, emit_links, reflinks
+from odxmodel import emit_links, reflinks
 
 PROPERTY = "C10"
 LEVEL = "exploration"
@@ -35,11 +37,31 @@ X_ID = "X"  # the colliding local ID
 # ---------------------------------------------------------------------------------------------
 # loading worlds through the real loader
 # ---------------------------------------------------------------------------------------------
+_SCRATCH: Optional[str] = None
+
+
+def scratch() -> str:
+    """scratch directory of this process (RAM-backed if possible).  Pool workers are ended without running atexit
+    handlers, therefore every work unit removes its directory itself (cleanup_scratch)."""
+    global _SCRATCH
+    if _SCRATCH is None or not os.path.isdir(_SCRATCH) or not _SCRATCH.endswith("_" + str(os.getpid())):
+        base = "/dev/shm" if os.path.isdir("/dev/shm") and os.access("/dev/shm", os.W_OK) else None
+        _SCRATCH = tempfile.mkdtemp(prefix="odxverif_c10_", suffix="_" + str(os.getpid()), dir=base)
+    return _SCRATCH
+
+
+def cleanup_scratch() -> None:
+    global _SCRATCH
+    if _SCRATCH is not None and _SCRATCH.endswith("_" + str(os.getpid())):
+        shutil.rmtree(_SCRATCH, ignore_errors=True)
+        _SCRATCH = None
+
+
 def load_world(world: Dict[str, Any]) -> Any:
     from odxtools.database import Database
     d = Database()
     d.add_auxiliary_file("job.jar", io.BytesIO(b"\x00"))  # the PROG-CODE of the SINGLE-ECU-JOBs
-    sd = emit.scratch_dir()
+    sd = scratch()
     paths = emit_links.write_world(world, sd)
     try:
         for p in paths:
@@ -498,14 +520,14 @@ def id_cells(quick: bool) -> List[Dict[str, Any]]:
                         cell = {"form": form, "defs": defs, "imports": imps, "s_first": s_first, "cb_first": cb_first}
                         if quick:
                             # quick: at most one importer; document orders only where they can matter; kinds outside
-                            # the core set only without import and with the sibling importing first
+                            # the core set only without imports
                             if len(imps) > 1:
                                 continue
                             if s_first and imps != ["LS"]:
                                 continue
                             if cb_first and imps != ["LO"]:
                                 continue
-                            if not (imps == [] or (imps == ["LS"] and s_first)):
+                            if imps:
                                 cell["core_only"] = True
                         cells.append(cell)
     if not quick:
@@ -521,6 +543,13 @@ def id_cells(quick: bool) -> List[Dict[str, Any]]:
 
 
 def id_unit(unit: Tuple[List[Dict[str, Any]], List[str]]) -> Part:
+    try:
+        return _id_unit(unit)
+    finally:
+        cleanup_scratch()
+
+
+def _id_unit(unit: Tuple[List[Dict[str, Any]], List[str]]) -> Part:
     cells, kinds = unit
     part = Part()
     for cell in cells:
@@ -739,6 +768,13 @@ def d_key(sc: Dict[str, Any], mode: str, expected: Tuple[str, str], got: Any) ->
 
 
 def d_unit(scs: List[Dict[str, Any]]) -> Part:
+    try:
+        return _d_unit(scs)
+    finally:
+        cleanup_scratch()
+
+
+def _d_unit(scs: List[Dict[str, Any]]) -> Part:
     part = Part()
     for sc in scs:
         expected, fail, observed = run_d_scenario(sc)
@@ -935,11 +971,18 @@ def s2_world(sc: Dict[str, Any]) -> Tuple[Dict[str, Any], Dict[str, Any], Callab
     raise ValueError(k)
 
 
+QUICK_SKIPPED_S_KINDS = ["dynamic-length-field/BASIC-STRUCTURE-SNREF", "dynamic-endmarker-field/BASIC-STRUCTURE-SNREF"]
+
+
 def s_scenarios(quick: bool) -> List[Dict[str, Any]]:
     out: List[Dict[str, Any]] = []
     for kind in S_KINDS:
+        if quick and kind in QUICK_SKIPPED_S_KINDS:
+            continue  # same Field._resolve_snrefs as the static and end-of-pdu field; thorough tier only
         for owner in ("LR", "LP"):
             for defs in subsets_of(S_LOCS):
+                if quick and "LS" in defs and "LO" in defs:
+                    continue  # quick: the two layers outside the owner's ancestry are not combined
                 for ni in ([], ["LR"], ["LP"], ["LR", "LP"]):
                     for imp in (False, True):
                         if quick and ((imp and "LE" not in defs) or len(ni) > 1):
@@ -1062,6 +1105,13 @@ def s_key(sc: Dict[str, Any], phase: str, mode: str, expected: Tuple[str, str], 
 
 
 def s_unit(scs: List[Dict[str, Any]]) -> Part:
+    try:
+        return _s_unit(scs)
+    finally:
+        cleanup_scratch()
+
+
+def _s_unit(scs: List[Dict[str, Any]]) -> Part:
     part = Part()
     for sc in scs:
         for phase, expected, fail, observed in run_s_scenario(sc):
@@ -1089,6 +1139,13 @@ def chunks(xs: List[Any], n: int) -> List[List[Any]]:
 
 
 def run(ctx: Ctx) -> None:
+    try:
+        _run(ctx)
+    finally:
+        cleanup_scratch()
+
+
+def _run(ctx: Ctx) -> None:
     kinds = [k.name for k in KINDS]
     cells = id_cells(ctx.quick)
     dscs = d_scenarios()
@@ -1127,6 +1184,13 @@ def run(ctx: Ctx) -> None:
 
 
 def replay(case: Any) -> List[Tuple[str, str]]:
+    try:
+        return _replay(case)
+    finally:
+        cleanup_scratch()
+
+
+def _replay(case: Any) -> List[Tuple[str, str]]:
     out: List[Tuple[str, str]] = []
     fam = case.get("family")
     sc = case["sc"]
@@ -1144,3 +1208,18 @@ def replay(case: Any) -> List[Tuple[str, str]]:
             if fail is not None:
                 out.append((s_key(sc, phase, fail[0], expected, observed_marker(observed)), f"{sc['kind']} [{phase}]: {fail[1]} [{sc}]"))
     return out
+
+
+def case_files(case: Any) -> List[Tuple[str, str]]:
+    """[(file name, ODX XML)] of a recorded case, for a human who wants to look at the database:
+    /venv/bin/python -c "import json,sys; sys.path.insert(0,'/verif'); from checks import c10;
+    [print(n, x, sep='\\n') for n, x in c10.case_files(json.load(open(sys.argv[1]))['case'])]" replays/C10/<file>.json"""
+    sc = case["sc"]
+    fam = case.get("family")
+    if fam == "I":
+        world = id_world(sc)[0]
+    elif fam == "D":
+        world = d_world(sc)[0]
+    else:
+        world = (s_world if sc["fam"] == "S" else s2_world)(sc)[0]
+    return emit_links.world_files(world)
